@@ -1,3 +1,217 @@
-/-! C01 property theorems — stub (not built yet). -/
+import TTModel.C01_Tree
+import TTModel.C01_Pruning
+import TTModel.C01_Patterns
+import TTProofs.Lemmas.C01_Pruning
+import TTProofs.Lemmas.C01_Tree
+import TTProofs.Lemmas.C01_TipStates
+import TTProofs.Lemmas.C01_Patterns
+import TTProofs.Lemmas.ScalarReal
+import Mathlib.Algebra.Order.Field.Rat
+/-!
+# C01 — tree log-likelihood equals exact marginalisation over ancestral states
+
+The model (`TTModel/C01_*.lean`) mirrors `setup_indexes`, `update_traversals`,
+`calculate_treelikelihood_discrete`, `calculate_treelikelihood_tip_states_discrete`, `compress`
+and the tip-vector tables (the latter GENERATED from `datatype.py`).  The theorems below are
+about exactly those definitions; the same definitions are executed at `Rat`/`Float` by `drv_c01`
+and compared with the real code by `harness/c01.py`.
+-/
 namespace TTProps.C01
+open TT TT.C01
+
+/-! ## pruning = sum over ALL labelings -/
+
+/-- **Headline.** For every binary tree (at least one internal node), every number of taxa `n`
+    bounding the leaf indices, all edge matrices, tip vectors, root frequencies, category weights,
+    over any commutative semiring: the value the index-addressed loop of
+    `calculate_treelikelihood_discrete` computes on the post-order triples produced by
+    `setup_indexes`/`update_traversals` is defined (no unset slot is ever read) and equals
+    `Σ_k p_k Σ_{σ : labelings of the internal nodes} π(σ root) · Π_{internal edges} P_e(σ parent, σ child)
+     · Π_{tip edges} Σ_j P_e(σ parent, j)·tip(j)`, the inner sum ranging over `allLabs`. -/
+theorem peel_eq_marginal {R : Type} [CommSemiring R] {K S : Nat}
+    (π : Fin S → R) (props : Fin K → R) (mats : Mats R K S) (tip : Nat → Fin S → R)
+    (n : Nat) (l r : BTree) (hleaves : ∀ i ∈ (BTree.node l r).leaves, i < n) :
+    siteLik π props mats (postorder (setupIndexes n (.node l r))) n tip
+      = some (marginal π props mats tip (setupIndexes n (.node l r))) := by
+  have hwf := setupIndexes_WF n (.node l r) hleaves
+  obtain ⟨i, il, ir, e⟩ := setupIndexes_node n l r
+  rw [e] at hwf ⊢
+  unfold siteLik
+  rw [rootPartial_postorder mats tip n i il ir hwf, Option.map_some, rootSum_eq_marginal]
+
+example : (∀ i ∈ (BTree.node (.node (.leaf 2) (.leaf 0)) (.leaf 1)).leaves, i < 3) := by decide
+
+/-- `allLabs` lists every assignment of states to the internal nodes … -/
+theorem allLabs_complete (S : Nat) (t : ITree) (lab : Lab S t) : lab ∈ allLabs S t :=
+  TT.C01.allLabs_complete S t lab
+
+/-- … exactly once … -/
+theorem allLabs_nodup (S : Nat) (t : ITree) : (allLabs S t).Nodup := TT.C01.allLabs_nodup S t
+
+/-- … so there are `S ^ (number of internal nodes)` of them. -/
+theorem allLabs_length (S : Nat) (t : ITree) : (allLabs S t).length = S ^ t.internals.length :=
+  TT.C01.allLabs_length S t
+
+example : (allLabs 4 (setupIndexes 3 (.node (.node (.leaf 2) (.leaf 0)) (.leaf 1)))).length = 16 := by
+  rw [allLabs_length]; rfl
+
+/-- `setup_indexes` + `update_traversals` produce a valid schedule: the node column of the triple
+    list is `n, n+1, …` (every internal index exactly once, root last, `n-1` of them when the tree
+    has `n` leaves), and every triple reads only tips (`< n`) or nodes written by an earlier triple. -/
+theorem postorder_wellformed (n : Nat) (T : BTree) (hleaves : ∀ i ∈ T.leaves, i < n) :
+    (postorder (setupIndexes n T)).map (·.1) = List.range' n T.internalCount ∧
+    Sched n [] (postorder (setupIndexes n T)) ∧
+    T.leaves.length = T.internalCount + 1 ∧
+    (∀ l r, T = .node l r →
+      ((postorder (setupIndexes n T)).getLast?).map (·.1) = some (n + T.internalCount - 1)) := by
+  refine ⟨?_, ?_, BTree.leaves_length T, ?_⟩
+  · rw [postorder_fst, setupIndexes_internals]
+  · exact sched_postorder n _ (setupIndexes_WF n T hleaves) []
+  · intro l r e
+    subst e
+    have h1 : ((postorder (setupIndexes n (.node l r))).map (·.1)).getLast?
+        = (List.range' n (BTree.node l r).internalCount).getLast? := by
+      rw [postorder_fst, setupIndexes_internals]
+    rw [List.getLast?_map] at h1
+    rw [h1]
+    simp [BTree.internalCount, List.getLast?_range']
+
+example : postorder (setupIndexes 4 (.node (.node (.leaf 1) (.leaf 3)) (.node (.leaf 0) (.leaf 2))))
+    = [(4, 1, 3), (5, 0, 2), (6, 4, 5)] := by decide
+
+/-! ## tip states vs tip partials -/
+
+/-- The tip-state loop (`calculate_treelikelihood_tip_states_discrete`: gather column `state` of
+    `[P | 1]`) returns the same value as the tip-partial loop run on the indicator vector of the state,
+    resp. the all-ones vector for the missing state `S`, provided every transition matrix has rows
+    summing to one (supplied by C04) and the tree has exactly `n` leaves (`tip_count = len(post)+1`). -/
+theorem tipStates_eq_tipPartials {R : Type} [CommSemiring R] {K S : Nat}
+    (π : Fin S → R) (props : Fin K → R) (mats : Mats R K S) (tipState : Nat → Nat)
+    (n : Nat) (l r : BTree) (hleaves : ∀ i ∈ (BTree.node l r).leaves, i < n)
+    (hn : (BTree.node l r).leaves.length = n)
+    (hrow : ∀ b k s, ∑ j, mats b k s j = 1) :
+    siteLikTS π props mats (postorder (setupIndexes n (.node l r))) tipState
+      = siteLik π props mats (postorder (setupIndexes n (.node l r))) n
+          (fun i => stateVec (tipState i)) := by
+  have hwf := setupIndexes_WF n (.node l r) hleaves
+  have hlen : (postorder (setupIndexes n (.node l r))).length + 1 = n := by
+    rw [postorder_length, setupIndexes_internals, List.length_range', ← BTree.leaves_length, hn]
+  obtain ⟨i, il, ir, e⟩ := setupIndexes_node n l r
+  rw [e] at hwf hlen ⊢
+  rw [siteLikTS_eq mats tipState n hrow π props i il ir hwf hlen]
+  unfold siteLik
+  rw [rootPartial_postorder mats _ n i il ir hwf, Option.map_some]
+
+example : ∀ (b : Nat) (k : Fin 1) (s : Fin 2), ∑ j, (fun _ _ _ _ => (1 / 2 : ℚ) : Mats ℚ 1 2) b k s j = 1 := by
+  intro b k s; simp
+
+/-! ## site patterns -/
+
+/-- Compressing columns into (pattern, multiplicity) pairs preserves every column-wise sum:
+    `Σ_{c ∈ columns} f c = Σ_{(p,w) ∈ compress columns} w • f p`, for every `f`. -/
+theorem compress_sum {C : Type} [DecidableEq C] [LT C] [DecidableLT C] {M : Type} [AddCommMonoid M]
+    (f : C → M) (cols : List C) :
+    ((compress cols).map fun pw => pw.2 • f pw.1).sum = (cols.map f).sum := by
+  unfold compress
+  rw [foldl_insertCount_sum]
+  simp
+
+/-- the patterns are exactly the columns that occur -/
+theorem compress_keys {C : Type} [DecidableEq C] [LT C] [DecidableLT C] (x : C) (cols : List C) :
+    x ∈ (compress cols).map (·.1) ↔ x ∈ cols := mem_compress_keys x cols
+
+example : compress [[3], [1], [3], [2], [1], [3]] = [([1], 2), ([2], 1), ([3], 3)] := by decide
+
+/-- The reported value `Σ_p w_p · log(L_p)` over the compressed patterns equals the sum over all
+    sites of `log(L_site)` (over `ℝ`; `lik` is any per-column likelihood). -/
+theorem loglik_eq {C : Type} [DecidableEq C] [LT C] [DecidableLT C] (lik : C → ℝ) (cols : List C) :
+    logLik ((compress cols).map fun p => lik p.1) ((compress cols).map fun p => (p.2 : ℝ))
+      = (cols.map fun c => Real.log (lik c)).sum := by
+  rw [← compress_sum (fun c => Real.log (lik c)) cols]
+  unfold logLik
+  rw [List.zipWith_map, List.zipWith_self]
+  congr 1
+  refine List.map_congr_left fun p _ => ?_
+  simp [nsmul_eq_mul, mul_comm]
+
+/-- **End to end on the model**: the reported log-likelihood (patterns, weights, pruning loop over the
+    post-order, rate categories) equals `Σ_sites log( marginal over all labelings and categories )`. -/
+theorem reported_eq_marginal {C : Type} [DecidableEq C] [LT C] [DecidableLT C] {K S : Nat}
+    (π : Fin S → ℝ) (props : Fin K → ℝ) (mats : Mats ℝ K S) (tipOf : C → Nat → Fin S → ℝ)
+    (n : Nat) (l r : BTree) (hleaves : ∀ i ∈ (BTree.node l r).leaves, i < n) (cols : List C) :
+    logLik ((compress cols).map fun p =>
+              (siteLik π props mats (postorder (setupIndexes n (.node l r))) n (tipOf p.1)).getD 0)
+           ((compress cols).map fun p => (p.2 : ℝ))
+      = (cols.map fun c => Real.log (marginal π props mats (tipOf c) (setupIndexes n (.node l r)))).sum := by
+  rw [← loglik_eq (fun c => marginal π props mats (tipOf c) (setupIndexes n (.node l r))) cols]
+  congr 1
+  refine List.map_congr_left fun p _ => ?_
+  rw [peel_eq_marginal π props mats (tipOf p.1) n l r hleaves]
+  rfl
+
+/-! ## tip vectors: the GENERATED tables against an independently written standard -/
+
+/-- IUPAC nucleotide codes (NC-IUB 1985), written here independently of `datatype.py`:
+    letter ↦ membership of (A, C, G, T) in the set the letter stands for -/
+def iupacStd : List (Nat × List Nat) :=
+  [ (65 /- A -/, [1, 0, 0, 0]), (67 /- C -/, [0, 1, 0, 0]), (71 /- G -/, [0, 0, 1, 0]),
+    (84 /- T -/, [0, 0, 0, 1]), (85 /- U = T -/, [0, 0, 0, 1]),
+    (82 /- R puRine A|G -/, [1, 0, 1, 0]), (89 /- Y pYrimidine C|T -/, [0, 1, 0, 1]),
+    (83 /- S strong C|G -/, [0, 1, 1, 0]), (87 /- W weak A|T -/, [1, 0, 0, 1]),
+    (75 /- K keto G|T -/, [0, 0, 1, 1]), (77 /- M amino A|C -/, [1, 1, 0, 0]),
+    (66 /- B not A -/, [0, 1, 1, 1]), (68 /- D not C -/, [1, 0, 1, 1]),
+    (72 /- H not G -/, [1, 1, 0, 1]), (86 /- V not T -/, [1, 1, 1, 0]),
+    (78 /- N any -/, [1, 1, 1, 1]) ]
+
+/-- ASCII upper-casing of a code point -/
+def upperCode (o : Nat) : Nat := if 97 ≤ o ∧ o ≤ 122 then o - 32 else o
+
+/-- the standard's tip vector: the union of the states a letter may stand for (either case);
+    anything that is not an IUPAC letter (gap `-`, `?`, …) is missing data = all states -/
+def iupacSpec (o : Nat) : List Nat :=
+  match iupacStd.find? (fun p => p.1 == upperCode o) with
+  | some p => p.2
+  | none => [1, 1, 1, 1]
+
+/-- every one of the 128 entries of the generated table, through `NucleotideDataType.partial`
+    with ambiguities on, is the IUPAC-standard indicator vector -/
+theorem iupac_table : ∀ o, o < 128 → nucPartialCode true o = some (iupacSpec o) := by decide
+
+/-- … lifted to characters -/
+theorem iupac_table_char (c : Char) (h : c.toNat < 128) : nucPartial true c = some (iupacSpec c.toNat) :=
+  iupac_table c.toNat h
+
+/-- the state a plain base stands for (A0 C1 G2 T3 U3, either case), 4 = missing for anything else -/
+def plainState (o : Nat) : Nat :=
+  match upperCode o with
+  | 65 => 0 | 67 => 1 | 71 => 2 | 84 => 3 | 85 => 3 | _ => 4
+
+/-- tip states (`compress_alignment_states`): plain bases get their state, everything else the
+    missing state `4` -/
+theorem tipstate_table : ∀ o, o < 128 → nucTipStateCode o = some (plainState o) := by decide
+
+/-- with `use_ambiguities = False` the tip vector is the indicator of the plain base, and all ones for
+    every other symbol — i.e. exactly the vector `stateVec` of the tip state (this is what makes the
+    tip-state and tip-partial representations agree, C02) -/
+theorem noamb_table : ∀ o, o < 128 →
+    nucPartialCode false o = some (List.ofFn (stateVec (α := Nat) (S := 4) (plainState o))) := by decide
+
+example : nucPartial true 'r' = some [1, 0, 1, 0] ∧ nucPartial false 'R' = some [1, 1, 1, 1] ∧
+    nucTipState '-' = some 4 := by decide
+
+/-- amino-acid letters in state order, written independently -/
+def aaOrder : List Nat :=
+  [65, 67, 68, 69, 70, 71, 72, 73, 75, 76, 77, 78, 80, 81, 82, 83, 84, 86, 87, 89]
+  -- A   C   D   E   F   G   H   I   K   L   M   N   P   Q   R   S   T   V   W   Y
+
+def aaSpec (o : Nat) : List Nat :=
+  let u := upperCode o
+  if aaOrder.contains u then aaOrder.map fun x => if x = u then 1 else 0
+  else if u = 66 /- B = D|N -/ then aaOrder.map fun x => if x = 68 ∨ x = 78 then 1 else 0
+  else if u = 90 /- Z = E|Q -/ then aaOrder.map fun x => if x = 69 ∨ x = 81 then 1 else 0
+  else List.replicate 20 1
+
+/-- the generated amino-acid table: 20 states, `B = D|N`, `Z = E|Q`, everything else missing -/
+theorem aa_table : ∀ o, o < 128 → aaPartialCode true o = some (aaSpec o) := by decide
+
 end TTProps.C01
